@@ -390,3 +390,9 @@ def g_diag1(rng, level=0, n_random=100):
     for _ in range(n_random):
         N = int(rng.integers(1, 6))
         yield {'g1': bits(rng, 2 * N), 'i0': int(rng.integers(0, N))}
+
+
+@gen(U + 'random_pair')
+def g_rpair(rng, level=0, n_random=200):
+    for k in range(n_random):
+        yield {'N': 1 + k % 4}
